@@ -38,6 +38,8 @@ type liveChecker struct {
 	w     *core.World
 	memo  map[*types.Func]string // "" = verified, otherwise the reason it is not
 	stack map[*types.Func]bool
+	// fields: session-collection fields judged by fieldHoldsOnlyOpen ("" = only ever holds sessions seen open)
+	fields map[*types.Var]string
 }
 
 // bodyFacts analyses one function (and its closures): for every session variable / collection, whether some
@@ -135,6 +137,342 @@ func (lc *liveChecker) dirtyTargets(f *core.FuncInfo) map[types.Object]string {
 	return dirty
 }
 
+// typeMentions: t is, points to, or is built from the named type n.
+func typeMentions(t types.Type, n *types.Named, depth int) bool {
+	if depth > 6 || t == nil {
+		return false
+	}
+	switch x := t.(type) {
+	case *types.Named:
+		if x.Obj() == n.Obj() {
+			return true
+		}
+		if x.Obj().Pkg() != n.Obj().Pkg() {
+			return false
+		}
+		return typeMentions(x.Underlying(), n, depth+1)
+	case *types.Pointer:
+		return typeMentions(x.Elem(), n, depth+1)
+	case *types.Slice:
+		return typeMentions(x.Elem(), n, depth+1)
+	case *types.Array:
+		return typeMentions(x.Elem(), n, depth+1)
+	case *types.Chan:
+		return typeMentions(x.Elem(), n, depth+1)
+	case *types.Map:
+		return typeMentions(x.Key(), n, depth+1) || typeMentions(x.Elem(), n, depth+1)
+	case *types.Struct:
+		for i := 0; i < x.NumFields(); i++ {
+			if typeMentions(x.Field(i).Type(), n, depth+1) {
+				return true
+			}
+		}
+	}
+	return false
+}
+
+// fieldHoldsOnlyOpen returns "" when the session-collection field fv is an accumulator of one invocation that is
+// only ever fed sessions seen open: its struct type is unexported and no package variable or field of another
+// type can hold one (an instance lives in locals, parameters and results), and every write to the field is a
+// reslice of itself, nil, make, or an append of a session that was tested !IsClosed() at that point — directly,
+// or as the parameter of the writing function with every call of that function handing it a session tested open.
+func (lc *liveChecker) fieldHoldsOnlyOpen(fv *types.Var) string {
+	if lc.fields == nil {
+		lc.fields = map[*types.Var]string{}
+	}
+	if v, ok := lc.fields[fv]; ok {
+		return v
+	}
+	lc.fields[fv] = "" // a cycle through the field itself adds nothing
+	res := lc.fieldHoldsOnlyOpen1(fv)
+	lc.fields[fv] = res
+	return res
+}
+
+func (lc *liveChecker) fieldHoldsOnlyOpen1(fv *types.Var) string {
+	w := lc.w
+	if fv.Pkg() == nil || !isSessionColl(fv.Type()) {
+		return "not a collection of sessions"
+	}
+	// the owning struct type
+	var owner *types.Named
+	scope := fv.Pkg().Scope()
+	for _, n := range scope.Names() {
+		tn, ok := scope.Lookup(n).(*types.TypeName)
+		if !ok {
+			continue
+		}
+		nt, ok := tn.Type().(*types.Named)
+		if !ok {
+			continue
+		}
+		if st, ok := nt.Underlying().(*types.Struct); ok {
+			for i := 0; i < st.NumFields(); i++ {
+				if st.Field(i) == fv {
+					owner = nt
+				}
+			}
+		}
+	}
+	if owner == nil {
+		return "its struct type was not found"
+	}
+	if owner.Obj().Exported() {
+		return "its type " + owner.Obj().Name() + " is exported: instances can be kept anywhere"
+	}
+	for _, n := range scope.Names() {
+		switch o := scope.Lookup(n).(type) {
+		case *types.Var:
+			if typeMentions(o.Type(), owner, 0) {
+				return "the package variable " + o.Name() + " can keep a " + owner.Obj().Name() + " across invocations"
+			}
+		case *types.TypeName:
+			if nt, ok := o.Type().(*types.Named); ok && nt.Obj() != owner.Obj() {
+				if typeMentions(nt.Underlying(), owner, 0) {
+					return "the type " + o.Name() + " can keep a " + owner.Obj().Name() + " across invocations"
+				}
+			}
+		}
+	}
+	liveTag := func(o types.Object) string { return "live:" + o.Name() + "@" + w.Pos(o.Pos()) }
+	condTags := func(pkg *packages.Package, cond ast.Expr, branch bool) []flow.Tag {
+		c, ok := ast.Unparen(cond).(*ast.CallExpr)
+		if !ok {
+			return nil
+		}
+		sel, ok := ast.Unparen(c.Fun).(*ast.SelectorExpr)
+		if !ok || sel.Sel.Name != "IsClosed" {
+			return nil
+		}
+		if o := core.ObjOf(pkg.TypesInfo, sel.X); o != nil && !branch {
+			return []flow.Tag{liveTag(o)}
+		}
+		return nil
+	}
+	// analyse a function and its literals; returns the assignment / call points
+	analyse := func(f *core.FuncInfo, classify func(pkg *packages.Package, call *ast.CallExpr, callee *types.Func) []flow.Tag, assign func(pkg *packages.Package, as *ast.AssignStmt) []flow.Tag) ([]*flow.CallPoint, []*flow.AssignPoint) {
+		sp := &flow.Spec{W: w, Depth: 0, Inline: -1, CondTags: condTags, Classify: classify, AssignTags: assign}
+		var calls []*flow.CallPoint
+		var assigns []*flow.AssignPoint
+		res := sp.Analyze(f)
+		calls, assigns = append(calls, res.Calls...), append(assigns, res.Assigns...)
+		ast.Inspect(f.Decl.Body, func(n ast.Node) bool {
+			if lit, ok := n.(*ast.FuncLit); ok {
+				lr := sp.AnalyzeLit(f.Pkg, lit)
+				calls, assigns = append(calls, lr.Calls...), append(assigns, lr.Assigns...)
+			}
+			return true
+		})
+		return calls, assigns
+	}
+	// fedOpen: at every call of g the argument for parameter index pi is a session tested open at that point
+	var fedOpen func(g *core.FuncInfo, pi int, depth int) string
+	fedOpen = func(g *core.FuncInfo, pi int, depth int) string {
+		if depth > 3 {
+			return "call chain too deep"
+		}
+		sites := 0
+		for _, cs := range w.Callers(g.Obj) {
+			if w.IsTestFile(cs.Call.Pos()) {
+				continue
+			}
+			sites++
+			if cs.Static != g.Obj || pi >= len(cs.Call.Args) {
+				return "called indirectly at " + w.Pos(cs.Call.Pos())
+			}
+			calls, _ := analyse(cs.Caller, func(pkg *packages.Package, call *ast.CallExpr, callee *types.Func) []flow.Tag {
+				if call == cs.Call {
+					return []flow.Tag{"feed"}
+				}
+				return nil
+			}, nil)
+			seen := false
+			for _, cp := range calls {
+				if cp.Call != cs.Call {
+					continue
+				}
+				seen = true
+				a := ast.Unparen(cs.Call.Args[pi])
+				o := core.ObjOf(cs.Caller.Pkg.TypesInfo, a)
+				if _, isId := a.(*ast.Ident); !isId || o == nil {
+					return "handed " + core.ExprString(a) + " at " + w.Pos(cs.Call.Pos())
+				}
+				if cp.Before.Has(liveTag(o)) {
+					continue
+				}
+				// the caller hands on its own parameter
+				ok := false
+				for qi, q := range paramObjs(cs.Caller) {
+					if q == o && cs.InLit == nil {
+						if why := fedOpen(cs.Caller, qi, depth+1); why == "" {
+							ok = true
+						} else {
+							return why
+						}
+					}
+				}
+				if !ok {
+					return "handed '" + o.Name() + "' at " + w.Pos(cs.Call.Pos()) + " without an IsClosed test on that path"
+				}
+			}
+			if !seen {
+				return "the call at " + w.Pos(cs.Call.Pos()) + " was not reached by the analysis"
+			}
+		}
+		if sites == 0 {
+			return core.ShortKey(g.Obj) + " has no caller"
+		}
+		return ""
+	}
+	writes := 0
+	for _, f := range w.SortedFuncs() {
+		if f.Pkg.Types != fv.Pkg() || f.Decl == nil || f.Decl.Body == nil || w.IsTestFile(f.Decl.Pos()) {
+			continue
+		}
+		info := f.Pkg.TypesInfo
+		// composite literals of the owner that set the field
+		bad := ""
+		ast.Inspect(f.Decl.Body, func(n ast.Node) bool {
+			cl, ok := n.(*ast.CompositeLit)
+			if !ok {
+				return true
+			}
+			t := info.TypeOf(cl)
+			if t == nil || !typeMentions(t, owner, 0) {
+				return true
+			}
+			for _, el := range cl.Elts {
+				if kv, ok := el.(*ast.KeyValueExpr); ok {
+					if id, ok := kv.Key.(*ast.Ident); ok && info.Uses[id] == fv && !isNilIdent(info, kv.Value) {
+						if c, ok := ast.Unparen(kv.Value).(*ast.CallExpr); ok {
+							if fid, ok := c.Fun.(*ast.Ident); ok && fid.Name == "make" {
+								continue
+							}
+						}
+						bad = "the field is set in a literal at " + w.Pos(kv.Pos())
+					}
+				} else if len(cl.Elts) > 0 {
+					bad = "positional literal of " + owner.Obj().Name() + " at " + w.Pos(cl.Pos())
+				}
+			}
+			return true
+		})
+		if bad != "" {
+			return bad
+		}
+		isField := func(e ast.Expr) bool {
+			e = ast.Unparen(e)
+			if ix, ok := e.(*ast.IndexExpr); ok {
+				e = ast.Unparen(ix.X)
+			}
+			if sl, ok := e.(*ast.SliceExpr); ok {
+				e = ast.Unparen(sl.X)
+			}
+			sel, ok := e.(*ast.SelectorExpr)
+			return ok && info.Uses[sel.Sel] == fv
+		}
+		has := false
+		ast.Inspect(f.Decl.Body, func(n ast.Node) bool {
+			switch x := n.(type) {
+			case *ast.AssignStmt:
+				for _, l := range x.Lhs {
+					if isField(l) {
+						has = true
+					}
+				}
+			case *ast.UnaryExpr:
+				if x.Op == token.AND && isField(x.X) {
+					bad = "the address of the field is taken at " + w.Pos(x.Pos())
+				}
+			}
+			return true
+		})
+		if bad != "" {
+			return bad
+		}
+		if !has {
+			continue
+		}
+		_, assigns := analyse(f, nil, func(pkg *packages.Package, as *ast.AssignStmt) []flow.Tag {
+			for _, l := range as.Lhs {
+				if isField(l) {
+					return []flow.Tag{"fieldwrite"}
+				}
+			}
+			return nil
+		})
+		for _, ap := range assigns {
+			if !inSet("fieldwrite", ap.Tags...) {
+				continue
+			}
+			writes++
+			as := ap.Stmt
+			if len(as.Lhs) != len(as.Rhs) {
+				return "written by a multi-value assignment at " + w.Pos(as.Pos())
+			}
+			for i, l := range as.Lhs {
+				if !isField(l) {
+					continue
+				}
+				rhs := ast.Unparen(as.Rhs[i])
+				var stored []ast.Expr
+				switch x := rhs.(type) {
+				case *ast.Ident:
+					if !isNilIdent(info, x) {
+						stored = append(stored, x)
+					}
+				case *ast.SliceExpr:
+					if !isField(x.X) {
+						return "assigned " + core.ExprString(rhs) + " at " + w.Pos(as.Pos())
+					}
+				case *ast.CallExpr:
+					fid, _ := x.Fun.(*ast.Ident)
+					switch {
+					case fid != nil && fid.Name == "make":
+					case fid != nil && fid.Name == "append" && len(x.Args) >= 1 && x.Ellipsis == token.NoPos:
+						if !isField(x.Args[0]) && !isNilIdent(info, x.Args[0]) {
+							return "appends to " + core.ExprString(x.Args[0]) + " at " + w.Pos(as.Pos())
+						}
+						stored = append(stored, x.Args[1:]...)
+					default:
+						return "assigned " + core.ExprString(rhs) + " at " + w.Pos(as.Pos())
+					}
+				default:
+					return "assigned " + core.ExprString(rhs) + " at " + w.Pos(as.Pos())
+				}
+				for _, sx := range stored {
+					sx = ast.Unparen(sx)
+					id, ok := sx.(*ast.Ident)
+					o := core.ObjOf(info, sx)
+					if !ok || o == nil || !isSessionType(o.Type()) {
+						return "stores " + core.ExprString(sx) + " at " + w.Pos(as.Pos())
+					}
+					_ = id
+					if ap.Before.Has(liveTag(o)) {
+						continue
+					}
+					fed := false
+					for pi, p := range paramObjs(f) {
+						if p == o {
+							if why := fedOpen(f, pi, 0); why != "" {
+								return "stores its parameter '" + o.Name() + "' (" + w.Pos(as.Pos()) + "), which is " + why
+							}
+							fed = true
+						}
+					}
+					if !fed {
+						return "stores '" + o.Name() + "' at " + w.Pos(as.Pos()) + " without an IsClosed test on that path"
+					}
+				}
+			}
+		}
+	}
+	if writes == 0 {
+		return "no write to the field was found"
+	}
+	return ""
+}
+
 // verify returns "" when every return of f yields nil or a session seen open in this invocation.
 func (lc *liveChecker) verify(f *core.FuncInfo) string {
 	if v, ok := lc.memo[f.Obj]; ok {
@@ -193,7 +531,9 @@ func (lc *liveChecker) verify(f *core.FuncInfo) string {
 			if o == nil {
 				why = "returns an element of long-lived storage (" + core.ExprString(x.X) + ") without an IsClosed test"
 			} else if v, isVar := o.(*types.Var); isVar && v.IsField() {
-				why = "returns an element of the long-lived field " + v.Name() + " without an IsClosed test"
+				if bad := lc.fieldHoldsOnlyOpen(v); bad != "" {
+					why = "returns an element of the field " + v.Name() + " without an IsClosed test (" + bad + ")"
+				}
 			} else if d, bad := dirty[o]; bad {
 				why = "returns an element of '" + o.Name() + "', which was " + d
 			}
